@@ -57,8 +57,52 @@ def _hexs(s):
 def _dialect(netaddr, d):
     return {'compact': netaddr.ipv6_compact, 'full': netaddr.ipv6_full, 'verbose': netaddr.ipv6_verbose}[d]
 
+def _touch(o):
+    # read the whole public surface of the object (attributes, argument-free methods) and the text operators
+    import inspect, itertools
+    for name in sorted(dir(type(o))):
+        if name.startswith('_') or name in ('info',):
+            continue
+        try:
+            attr = inspect.getattr_static(type(o), name)
+            val = getattr(o, name)
+            if inspect.isfunction(attr):
+                ps = list(inspect.signature(attr).parameters.values())[1:]
+                if any(q.default is q.empty and q.kind in (q.POSITIONAL_ONLY, q.POSITIONAL_OR_KEYWORD, q.KEYWORD_ONLY) for q in ps):
+                    continue
+                val = val()
+            if hasattr(val, '__next__'):
+                list(itertools.islice(val, 3))
+        except Exception:
+            pass
+    for f in (str, repr, hash, int, bool, lambda x: x == x, lambda x: {x: 1}[x]):
+        try:
+            f(o)
+        except Exception:
+            pass
+
+def _mk_addr(netaddr, ver, v):
+    # IPAddress(v, ver) - for three quarters of the values a lived-in object: built next to the target, read all
+    # over (printed, hashed, compared), then moved to the target with -=, += or the value setter.  The property
+    # speaks of every address value, however the object holding it came about (a seeded change memoised the
+    # printed text and forgot one of the in-place operators).
+    import zlib
+    h = zlib.crc32(('%d:%d' % (ver, v)).encode())
+    mode = h & 3
+    w = 32 if ver == 4 else 128
+    if mode == 0 or not isinstance(v, int) or not 0 <= v < (1 << w):
+        return netaddr.IPAddress(v, ver)
+    k = 1 + ((h >> 2) % 7)
+    if mode == 1 and v + k < (1 << w):
+        ip = netaddr.IPAddress(v + k, ver); _touch(ip); ip -= k
+    elif mode == 2 and v - k >= 0:
+        ip = netaddr.IPAddress(v - k, ver); _touch(ip); ip += k
+    else:
+        ip = netaddr.IPAddress(v ^ (1 << ((h >> 5) % w)), ver); _touch(ip); ip.value = v
+    return ip
+
 def _fmt(netaddr, ver, v, d):
-    ip = netaddr.IPAddress(v, ver)
+    ip = _mk_addr(netaddr, ver, v)
     if d is None:
         return str(ip)
     if ver == 4:
@@ -105,7 +149,7 @@ def run_real(netaddr, a):
             return '!' + _errname(netaddr, e)
     if op == 'repr':
         _, be, ver, v = a
-        r = repr(netaddr.IPAddress(v, ver))
+        r = repr(_mk_addr(netaddr, ver, v))
         # eval-free: plain frame removal, then the constructor on the quoted part
         if not (r.startswith("IPAddress('") and r.endswith("')")):
             return _hexs(r) + ' !unquote'
